@@ -135,8 +135,8 @@ Theorem partition_range_python :
 Proof. exact partition_range_lemma. Qed.
 Print Assumptions partition_range_python.
 
-(** (f3) REFUTED for the pinned code: a well-formed array and a legal target for which the loop reads
-    partitions_[numpartitions], whatever the fuel *)
+(** (f3) REFUTED for the code as pinned (model variant fixed = false): a well-formed array and a legal target for
+    which the loop reads partitions_[numpartitions], whatever the fuel *)
 Theorem repartition_refuted :
   exists (pa : parr Z) (stops' : list Z),
     wf_parr Z pa /\ monotone stops' /\ last stops' 0 = zlen (concat (pa_parts pa)) /\
@@ -145,7 +145,8 @@ Theorem repartition_refuted :
 Proof. exact repartition_refuted_lemma. Qed.
 Print Assumptions repartition_refuted.
 
-(** (f3') with the one-line guard: no out-of-bounds access, the stated fuel suffices *)
+(** (f3') with the guard of the fix: commit (fixed = true, the current tree): no out-of-bounds access, the stated fuel
+    suffices *)
 Theorem repartition_in_bounds :
   forall (A : Type) (pa : parr A) (stops' : list Z),
     wf_parr A pa -> monotone stops' -> last stops' 0 = zlen (concat (pa_parts pa)) ->
